@@ -78,3 +78,14 @@ PROPS['C07'] = {
     'outside': ['sources that panic (C04, engine M)', 'the text of the panic message (Kani does not model formatted panic messages)', 'N > 8'],
     'assumptions': ['count <= N+3'],
 }
+
+PROPS['C08'] = {
+    'kani': {
+        'quick': [krun(['c08::q::'], timeout=900, bounds='N in 0..=4; receiver form symbolic: map/fold owned,&,&mut,Box; zip nine stack forms + Box x Box; plain u32 (no-drop path, symbolic salt) and tracked Tr (drop-aware path); Clone/Default via recording element type')],
+        'thorough': [krun(['c08::'], timeout=2400, bounds='N in 0..=8')],
+    },
+    'functions': ['GenericSequence::generate (GenericArray, Box<GenericArray>)', 'FunctionalSequence::{map,zip,fold} (GenericArray, &S, &mut S, Box)', 'GenericSequence::{inverted_zip,inverted_zip2} (both specialised bodies and both trait defaults)', 'Clone, Default for GenericArray', 'default_boxed'],
+    'bounds': 'K: N <= 4 (thorough 8); witness index and form selector symbolic.',
+    'outside': ['N > 8'],
+    'assumptions': [],
+}
